@@ -449,16 +449,125 @@ func (h *harness) tieRebuild(bt *built, s *schema.Schema, data []byte) *failure 
 		return f0
 	}
 	reg, impls := registrySexps(s)
-	rep, f := h.ask(hx.N("rebuild", x, reg, impls, featuresSexp(bt.sdef.allFeatures())).String())
+	variant := "drop"
+	if h.keepDefaults {
+		variant = "keep"
+	}
+	rep, f := h.ask(hx.N("rebuild", x, reg, impls, featuresSexp(bt.sdef.allFeatures()), hx.A(variant)).String())
 	if f != nil {
 		return f
 	}
-	h.count("model:rebuild")
-	a, b := canonIDs(rep, 1<<40, true).String(), canonIDs(eraseIDs(x2), 1<<40, true).String()
-	if a != b {
-		return corr("model-rebuild", "rebuilt definitions differ: model vs implementation "+firstDiff(a, b))
+	h.count("model:rebuild:" + variant)
+	a, b := canonValues(canonIDs(rep, 1<<40, true)), canonValues(canonIDs(eraseIDs(x2), 1<<40, true))
+	st := &wildStats{}
+	if where := matchWild(a, b, "", st); where != "" {
+		return corr("model-rebuild", "rebuilt definitions differ at "+where+": model vs implementation "+firstDiff(a.String(), b.String()))
+	}
+	if !h.quiet {
+		h.run.CountN("model:rebuild:defaults-determined", st.exact)
+		h.run.CountN("model:rebuild:defaults-not-determined-by-model", st.wild)
 	}
 	return nil
+}
+
+// canonValues prepares default values for comparison between the model's rebuilt definition and the
+// real one: an enum value is the string of its name in a rebuilt definition, and the fields of an
+// input-object value come out of a Go map (sorted by name here).
+func canonValues(x hx.Sexp) hx.Sexp {
+	if !x.IsList {
+		return x
+	}
+	out := hx.Sexp{IsList: true, List: make([]hx.Sexp, len(x.List))}
+	for i, e := range x.List {
+		out.List[i] = canonValues(e)
+	}
+	if len(out.List) >= 1 && !out.List[0].IsList {
+		switch out.List[0].Atom {
+		case "enum":
+			out.List[0] = hx.A("str")
+		case "obj":
+			rest := out.List[1:]
+			sort.SliceStable(rest, func(i, j int) bool {
+				if len(rest[i].List) == 0 || len(rest[j].List) == 0 {
+					return false
+				}
+				return rest[i].List[0].Atom < rest[j].List[0].Atom
+			})
+		}
+	}
+	return out
+}
+
+type wildStats struct{ exact, wild int }
+
+func isWild(x hx.Sexp) bool {
+	return x.IsList && len(x.List) == 2 && !x.List[0].IsList && x.List[0].Atom == "float"
+}
+
+func hasWild(x hx.Sexp) bool {
+	if isWild(x) {
+		return true
+	}
+	for _, e := range x.List {
+		if hasWild(e) {
+			return true
+		}
+	}
+	return false
+}
+
+// matchWild compares the model's expression with the implementation's; `(float "text")` on the
+// model's side (a default value, or part of one, that the model does not determine) matches
+// anything, and `(default (float …))` also matches an absent default. It returns the path of the
+// first mismatch ("" = match).
+func matchWild(model, real hx.Sexp, path string, st *wildStats) string {
+	if isWild(model) {
+		return ""
+	}
+	if model.IsList != real.IsList {
+		return path
+	}
+	if !model.IsList {
+		if model.Atom != real.Atom {
+			return path + " (" + model.Atom + " vs " + real.Atom + ")"
+		}
+		return ""
+	}
+	if len(model.List) >= 1 && !model.List[0].IsList && model.List[0].Atom == "default" && len(model.List) == 2 {
+		if isWild(model.List[1]) {
+			st.wild++
+			return ""
+		}
+		if model.List[1].IsList || model.List[1].Atom != "none" {
+			if hasWild(model.List[1]) {
+				st.wild++
+			} else {
+				st.exact++
+			}
+		}
+	}
+	if len(model.List) != len(real.List) {
+		return path + " (length)"
+	}
+	for i := range model.List {
+		p := path
+		if i == 0 && !model.List[0].IsList {
+			continue
+		}
+		if !model.List[0].IsList {
+			p = path + "/" + model.List[0].Atom
+			if len(model.List) > 1 && !model.List[1].IsList && i > 1 {
+				p = path + "/" + model.List[0].Atom + ":" + model.List[1].Atom
+			}
+		}
+		if w := matchWild(model.List[i], real.List[i], p, st); w != "" {
+			return w
+		}
+	}
+	if len(model.List) > 0 && !model.List[0].IsList && !real.List[0].IsList && model.List[0].Atom != real.List[0].Atom {
+		return path + " (" + model.List[0].Atom + " vs " + real.List[0].Atom + ")"
+	}
+	return ""
 }
 
 // tieRoundTrip ties the literal specification of the theorems (Literal.lean: parseLit, coerceLit)
